@@ -308,7 +308,7 @@ def run(res, tier, seed):
     res.rule = ("threshold: ALL (6 supports with 1-3 intervals incl. empty intervals and first sample not in first interval) x (<=%d distinct samples, and every MULTISET of <=%d samples with "
                 "repeated timestamps, inside the support on an 8-point even-tick dyadic lattice) x (all value patterns in {0,1,2}^n against thr=1) x 4 methods "
                 "[thorough: complete for distinct samples and for multisets of <=3, 30000 sampled multisets of 4; quick: 3000 + 1500 sampled]; "
-                "plus %d random ns-resolution cases (1-3 intervals, <=6 samples, gaps 0 / 1 ns / odd / ~1 us / large, float and int64 data) x 4 methods, plus the audit's seeds. "
+                "plus %d random ns-resolution cases (1-3 intervals, <=6 samples, gaps 0 / 1 ns / odd / ~1 us / large, float and int64 data; integer threshold 1 and, on every 5th lattice case (int64 data) and a quarter of the ns cases, the non-integer thresholds 0.5 / 1.5 / -0.5) x 4 methods, plus the audit's seeds. "
                 "dropna: all NaN masks over all multisets of <=%d lattice points for Tsd (TsdFrame/TsdTensor every 7th), each under one wide interval, the default support and one "
                 "multi-interval support containing the samples (rotating) [quick: 1200 sampled]; plus 300 (thorough 3000) ns-resolution cases with gaps 0 / 1 ns / <1 us / =1 us / 1-2 us / >2 us. Oracle = the statement (kept exact, separation, "
                 "restrict reproduces, threshold inside old support, midpoints exact up to ns rounding), no exemption: what cannot hold (kept and rejected at one timestamp, 1 ns neighbours) "
@@ -330,21 +330,31 @@ def run(res, tier, seed):
     else:
         cases = distinct + [c for c in dups if len(c[1]) <= 3] + rng.sample([c for c in dups if len(c[1]) == 4], 30000)
     offs = [0, -3 * U2, -1000 * U2]
-    cases = [([(a + offs[n % 3], b + offs[n % 3]) for a, b in ep], [t + offs[n % 3] for t in ts], vals, "float") for n, (ep, ts, vals) in enumerate(cases)]
+    # the threshold: 1 (values 0,1,2 fall below / on / above it); every 5th lattice case and half of the integer-dtype cases use a NON-INTEGER threshold
+    # (0.5, 1.5, and -0.5 against values -1,0,1): the comparison is the mathematical one whatever the dtype of the data (seed C07-4: threshold cast to the data's dtype)
+    FRAC = [0.5, 1.5, -0.5]
+    def with_thr(ep, ts, vals, dt, k):
+        if k is None:
+            return (ep, ts, vals, dt, 1)
+        thr = FRAC[k % 3]
+        return (ep, ts, [v - 1 for v in vals] if thr < 0 else vals, dt, thr)
+    cases = [with_thr([(a + offs[n % 3], b + offs[n % 3]) for a, b in ep], [t + offs[n % 3] for t in ts], vals, "int" if n % 5 == 4 else "float", n // 5 if n % 5 == 4 else None)
+             for n, (ep, ts, vals) in enumerate(cases)]
     nlat = len(cases)
-    cases += [(ep, ts, vals, "float") for ep, ts, vals in SEEDS]
+    cases += [(ep, ts, vals, "float", 1) for ep, ts, vals in SEEDS]
     for i in range(nrand):
         ep, ts, vals = rand_ns_case(rng)
-        cases.append((ep, ts, vals, "int" if i % 4 == 3 else "float"))
+        cases.append(with_thr(ep, ts, vals, "int" if i % 4 == 3 else "float", i // 4 if i % 8 in (3, 6) else None))
     lines = []
-    for ep, ts, vals, _ in cases:
+    for ep, ts, vals, _, thr in cases:
         for m in METHODS:
-            kept = [1 if METHODS[m](v, 1) else 0 for v in vals]
+            kept = [1 if METHODS[m](v, thr) else 0 for v in vals]
             lines.append("threshold\t%s\t%s\t%s" % (C.fmt_iset(ep), C.fmt_ints(ts), C.fmt_ints(kept)))
     out = C.run_model(lines)
-    for n, (ep, ts, vals, dt) in enumerate(cases):
+    for n, (ep, ts, vals, dt, thr) in enumerate(cases):
+        res.count("threshold:dtype=%s,thr=%s" % (dt, "integer" if thr == int(thr) else "fractional"))
         for j, m in enumerate(METHODS):
-            kept = [METHODS[m](v, 1) for v in vals]
+            kept = [METHODS[m](v, thr) for v in vals]
             res.case((tuple(ep), tuple(ts), tuple(kept)), nontrivial=len(ts) >= 2 and any(kept) and not all(kept))
             mv = [int(x) for x in out[4 * n + j].split()]
             # the model support is in doubled ticks and raw (before the IntervalSet constructor): comparable when every bound is a whole tick and the set is canonical
@@ -352,7 +362,7 @@ def run(res, tier, seed):
             if msup is None or not G.canonical(msup):
                 msup = None
                 res.count("threshold:model_support_not_comparable(half-tick or non-canonical raw support)")
-            check_threshold(nap, ts, vals, ep, m, 1, msup, res, dt)
+            check_threshold(nap, ts, vals, ep, m, thr, msup, res, dt)
         res.count("n_samples=%d" % len(ts))
         res.count("n_intervals=%d" % len(ep))
         res.count("threshold:" + ("lattice" if n < nlat else "ns-resolution") + (",duplicates" if len(set(ts)) < len(ts) else ""))
